@@ -23,7 +23,7 @@ BIN_IDS = {"arctan2": 10, "maximum": 11, "minimum": 12, "hypot": 13}
 BIN_ALG = {"add": "Add", "subtract": "Sub", "multiply": "Mul", "divide": "Div", "power": "Pow"}
 U_ABS, U_PHASE, U_SQRT, U_ARCCOS, B_POW = 0, 4, 5, 6, 0
 ALG = {"add": "Add", "sub": "Sub", "mul": "Mul", "div": "Div", "pow": "Pow"}
-LABELS = ["a", "b", "c", "d", "p", "q", "r", "s", "u", "w"]
+LABELS = ["a", "b", "c", "d", "p", "q", "r", "s", "u", "w", "ab", "abc", "p_1", "Q"]
 KNOWN_COMM = "C03-commutative-distinct-labels"
 
 
@@ -91,43 +91,110 @@ def num_py(v):
 
 
 # ------------------------------------------------------------------ building the operands
+DTYPES = {"float": np.float64, "int": np.int64, "complex": np.complex128, "float32": np.float32,
+          "complex64": np.complex64, "int32": np.int32, "int16": np.int16, "uint8": np.uint8, "uint16": np.uint16}
+INT_KINDS = ("int", "int32", "int16", "uint8", "uint16")
+UNSIGNED = ("uint8", "uint16")
+LOWPREC = ("float32", "complex64")
+KNOWN_RSUB = "C03-rsub-unsigned-wraps"
+
+
 def build_mesh(m):
     p1 = [float(F(x)) for x in m["p1"]]
     p2 = [float(F(x)) for x in m["p2"]]
-    return df.Mesh(region=df.Region(p1=p1, p2=p2, dims=m.get("dims")), n=m["n"])
+    if m.get("ptype") == "int" and all(float(x).is_integer() for x in p1 + p2):
+        p1, p2 = [int(x) for x in p1], [int(x) for x in p2]          # integer-typed corners
+    elif m.get("ptype") == "ndarray":
+        p1, p2 = np.array(p1), np.array(p2)
+    n = m["n"]
+    nt = m.get("ntype")
+    if nt == "tuple":
+        n = tuple(n)
+    elif nt in ("uint8", "int16", "int64", "uint32"):
+        n = np.array(n, dtype=nt)
+    elif nt == "npscalars":
+        n = [np.int32(k) for k in n]
+    return df.Mesh(region=df.Region(p1=p1, p2=p2, dims=m.get("dims"), units=m.get("units")), n=n)
 
 
 def field_array(fd, n):
     vals = [num_py(v) for v in fd["vals"]]
-    dt = {"float": np.float64, "int": np.int64, "complex": np.complex128}[fd["dtype"]]
-    if fd["dtype"] == "int":
+    dt = DTYPES[fd["dtype"]]
+    if fd["dtype"] in INT_KINDS:
         vals = [int(v) for v in vals]
     return np.array(vals, dtype=dt).reshape(*n, fd["nvdim"])
 
 
-def build_field(fd, meshes):
-    mesh = meshes[fd["mesh"]]
+def build_field(fd, meshes, own_mesh=None):
+    mesh = meshes[fd["mesh"]] if own_mesh is None else own_mesh
     arr = field_array(fd, [int(k) for k in mesh.n])
     valid = np.array(fd["valid"], dtype=bool).reshape(*mesh.n)
+    vmap = fd.get("vmap")
+    if vmap is not None:
+        vmap = dict(vmap) if not isinstance(vmap, list) else {k: v for k, v in vmap}   # list keeps insertion order
     return df.Field(mesh, nvdim=fd["nvdim"], value=arr, dtype=arr.dtype, valid=valid,
-                    vdims=fd.get("vdims"), vdim_mapping=fd.get("vmap"), unit=fd.get("unit"))
+                    vdims=fd.get("vdims"), vdim_mapping=vmap, unit=fd.get("unit"))
+
+
+def ctype_of(e):
+    if e[0] == "num":
+        return e[3] if len(e) > 3 else None
+    if e[0] == "vec":
+        return e[4] if len(e) > 4 else None
+    return e[3] if len(e) > 3 else None
 
 
 def const_py(e, n):
     """the Python object handed to the implementation for a constant node"""
+    ct = ctype_of(e)
     if e[0] == "num":
         v = num_py(e[2])
+        if ct == "pyint":
+            return int(v)
+        if ct is not None:
+            return DTYPES[ct](int(v) if ct in INT_KINDS else v)
         if e[1]:
             return np.complex128(v) if isinstance(v, complex) else np.float64(v)
         return v
     if e[0] == "vec":
         vs = [num_py(v) for v in e[2]]
+        if ct == "pyint":
+            vs = [int(v) for v in vs]
+        elif ct is not None:
+            return np.array([int(v) for v in vs] if ct in INT_KINDS else vs, dtype=DTYPES[ct])
         if e[1]:
             return np.array(vs)
         return tuple(vs) if e[3] == "tuple" else list(vs)
     if e[0] == "arr":
-        return np.array([num_py(v) for v in e[2]]).reshape(*n, e[1])
+        vs = [num_py(v) for v in e[2]]
+        if ct is not None:
+            return np.array([int(v) for v in vs] if ct in INT_KINDS else vs, dtype=DTYPES[ct]).reshape(*n, e[1])
+        return np.array(vs).reshape(*n, e[1])
     raise ValueError(e[0])
+
+
+def make_consts(e, n, out=None):
+    """one Python object per constant node, re-used by every evaluation of the case"""
+    out = {} if out is None else out
+    if is_const(e):
+        out[id(e)] = const_py(e, n)
+    elif e[0] == "un":
+        make_consts(e[3], n, out)
+    elif e[0] == "bin":
+        make_consts(e[3], n, out)
+        make_consts(e[4], n, out)
+    return out
+
+
+def const_snapshot(consts):
+    out = []
+    for k in sorted(consts):
+        v = consts[k]
+        if isinstance(v, np.ndarray):
+            out.append((k, v.tobytes(), str(v.dtype), v.shape))
+        else:
+            out.append((k, type(v).__name__, repr(v)))
+    return out
 
 
 def is_const(e):
@@ -135,14 +202,16 @@ def is_const(e):
 
 
 # ------------------------------------------------------------------ evaluation on the implementation
-def ev_impl(e, leaves, n):
+def ev_impl(e, leaves, n, consts=None):
     k = e[0]
     if k == "leaf":
         return leaves[e[1]]
     if is_const(e):
+        if consts is not None and id(e) in consts:
+            return consts[id(e)]
         return const_py(e, n)
     if k == "un":
-        op, arg, x = e[1], e[2], ev_impl(e[3], leaves, n)
+        op, arg, x = e[1], e[2], ev_impl(e[3], leaves, n, consts)
         if op == "neg":
             return -x
         if op == "pos":
@@ -168,7 +237,7 @@ def ev_impl(e, leaves, n):
         raise ValueError(op)
     if k == "bin":
         op, arg = e[1], e[2]
-        a, b = ev_impl(e[3], leaves, n), ev_impl(e[4], leaves, n)
+        a, b = ev_impl(e[3], leaves, n, consts), ev_impl(e[4], leaves, n, consts)
         if op == "add":
             return a + b
         if op == "sub":
@@ -202,13 +271,21 @@ class Ref:
 
 
 class Ctx:
-    def __init__(self, case):
+    def __init__(self, case, leaves=None):
         self.case = case
         self.n = case["meshes"][0]["n"]
+        self.leaf_data = None
+        if leaves is not None:
+            # the state the operands report NOW (after any in-place change)
+            self.leaf_data = [(np.array(f.array, copy=True), np.array(f.valid, copy=True)) for f in leaves]
+            if leaves:
+                self.n = [int(k) for k in leaves[0].mesh.n]
         self.t1, self.t2 = {}, {}
         self.keys_exact = True
-        self.scale = 1.0
+        self.scale = 0.0
         self.all_exact = True
+        low = any(fd["dtype"] in LOWPREC for fd in case["fields"]) or lowprec_consts(case["expr"])
+        self.rel = 4e-6 if low else 1e-9
 
     def see(self, fl):
         a = np.abs(np.asarray(fl, dtype=complex))
@@ -232,6 +309,16 @@ class Ctx:
             self.t2[(fid, complex(a), complex(b))] = complex(c)
 
 
+def lowprec_consts(e):
+    if is_const(e):
+        return ctype_of(e) in LOWPREC
+    if e[0] == "un":
+        return lowprec_consts(e[3])
+    if e[0] == "bin":
+        return lowprec_consts(e[3]) or lowprec_consts(e[4])
+    return False
+
+
 def field_dtype(arr):
     """Field(...) without dtype stores max(dtype, float64)"""
     arr = np.asarray(arr)
@@ -242,12 +329,17 @@ def ev_ref(e, ctx):
     k = e[0]
     case = ctx.case
     if k == "leaf":
+        if ctx.leaf_data is not None:
+            arr, valid = ctx.leaf_data[e[1]]
+            return Ref(arr, to_exact(arr), valid, [e[1]])
         fd = case["fields"][e[1]]
         n = case["meshes"][fd["mesh"]]["n"]
         arr = field_array(fd, n)
         return Ref(arr, to_exact(arr), np.array(fd["valid"], dtype=bool).reshape(*n), [e[1]])
     if is_const(e):
         c = np.asarray(const_py(e, ctx.n))
+        if isinstance(const_py(e, ctx.n), (int, float, complex)) and not isinstance(const_py(e, ctx.n), np.generic):
+            c = const_py(e, ctx.n)        # Python numbers stay weakly typed in numpy arithmetic
         ctx.see(c)
         return Ref(c, to_exact(c), None, [], field=False)
     if k == "un":
@@ -339,6 +431,7 @@ def ev_ref(e, ctx):
             for idx in np.ndindex(*xa_.shape[:-1]):
                 rex[idx] = c3(xa_[idx], xb_[idx])
         elif op == "angle":
+            fa, fb = np.asarray(fa), np.asarray(fb)
             fb_ = np.broadcast_to(fb, fa.shape) if fb.ndim < fa.ndim or fb.shape != fa.shape else fb
             xb_ = np.broadcast_to(xb, xa.shape) if xb.shape != xa.shape else xb
             d = np.sum(fa * fb_, axis=-1, keepdims=True)
@@ -356,6 +449,7 @@ def ev_ref(e, ctx):
             ctx.keys_exact = False
             rex = to_exact(r)
         elif op == "stack":
+            fa, fb = np.asarray(fa), np.asarray(fb)
             n = tuple(ctx.n)
             fa2 = np.broadcast_to(fa, n + (fa.shape[-1] if fa.ndim else 1,)) if not a.field else fa
             fb2 = np.broadcast_to(fb, n + (fb.shape[-1] if fb.ndim else 1,)) if not b.field else fb
@@ -455,6 +549,8 @@ def rnum(rng, regime, cplx=False, nonzero=True):
                 v = F(rng.randint(-24, 24), rng.choice([1, 1, 2, 4]))
             elif regime == "int":
                 v = F(rng.randint(-9, 9))
+            elif regime.startswith("pow2:"):      # tiny / huge magnitudes: any absolute tolerance shows
+                v = F(rng.randint(-24, 24), rng.choice([1, 2, 4])) * F(2) ** int(regime[5:])
             else:
                 v = F(rng.randint(-999, 999), 1000) * F(10) ** rng.choice([-3, 0, 0, 2])
                 v = F(float(v))
@@ -471,9 +567,22 @@ def gen_mesh(rng, tier):
     n = [rng.randint(1, mx) for _ in range(nd)]
     cell = [F(rng.choice([1, 2, 3, 5]), rng.choice([1, 2, 4])) for _ in range(nd)]
     p1 = [F(rng.randint(-16, 16), 2) for _ in range(nd)]
+    ptype = rng.choice(["float", "float", "int", "ndarray"])
+    if ptype == "int":       # integer-typed corners, possibly fractional cells
+        p1 = [F(rng.randint(-8, 8)) for _ in range(nd)]
+        cell = [F(rng.randint(1, 6), k) for k in n]
     p2 = [a + k * c for a, k, c in zip(p1, n, cell)]
-    dims = rng.sample(["x", "y", "z", "t", "r1", "k", "m"], nd) if (nd > 3 or rng.random() < 0.3) else None
-    return dict(p1=[g.qs(x) for x in p1], p2=[g.qs(x) for x in p2], n=n, dims=dims)
+    r = rng.random()
+    dims = None
+    if nd > 3 or r < 0.3:
+        dims = rng.sample(["x", "y", "z", "t", "r1", "k", "m"], nd)
+    elif r < 0.45:
+        dims = rng.sample(["V", "n", "r", "v", "x", "nn"], nd)     # unusual but legal names
+    units = None
+    if rng.random() < 0.25:
+        units = [rng.choice(["m", "nm", "", "s", "rad"]) for _ in range(nd)]
+    return dict(p1=[g.qs(x) for x in p1], p2=[g.qs(x) for x in p2], n=n, dims=dims, units=units, ptype=ptype,
+                ntype=rng.choice(["list", "list", "tuple", "uint8", "int16", "uint32", "npscalars"]))
 
 
 def gen_field(rng, mesh_i, meshes, nv, regime, dtype=None, plain=False):
@@ -482,8 +591,19 @@ def gen_field(rng, mesh_i, meshes, nv, regime, dtype=None, plain=False):
     nd = len(m["n"])
     if dtype is None:
         dtype = rng.choice(["float"] * 6 + ["int"] * 2 + ["complex"] * 2)
-    reg = "int" if dtype == "int" else regime
-    vals = [rnum(rng, reg, cplx=(dtype == "complex")) for _ in range(ncell * nv)]
+    lim = {"uint8": 12, "uint16": 255, "int16": 181, "int32": 46340, "int": 3037000499}
+    if dtype in ("uint8", "uint16", "int16", "int32") or (dtype == "int" and regime == "limits"):
+        hi = lim[dtype]
+
+        def one():
+            v = rng.choice([hi, hi - 1, rng.randint(1, hi), rng.randint(1, min(hi, 9))])
+            return v if dtype in UNSIGNED or rng.random() < 0.5 else -v
+        vals = [[g.qs(one()), "0/1"] for _ in range(ncell * nv)]
+    else:
+        reg = "int" if dtype == "int" else ("exact" if regime == "limits" else regime)
+        vals = [rnum(rng, reg, cplx=(dtype in ("complex", "complex64"))) for _ in range(ncell * nv)]
+        if dtype in LOWPREC and not reg == "exact":
+            vals = [[g.qs(F(float(np.float32(float(F(a))))))  , g.qs(F(float(np.float32(float(F(b))))))] for a, b in vals]
     pm = rng.choice([0.0, 0.0, 0.25, 0.5])
     valid = [rng.random() >= pm for _ in range(ncell)]
     vdims, vmap = None, None
@@ -496,7 +616,9 @@ def gen_field(rng, mesh_i, meshes, nv, regime, dtype=None, plain=False):
         if nv > 1 and r < 0.25:
             vmap = {}
         elif nv > 1 and r < 0.55:
-            vmap = {lab: rng.choice(dims) for lab in labels}
+            order = list(labels)
+            rng.shuffle(order)                      # insertion order differs from vdims
+            vmap = {lab: rng.choice(dims) for lab in order}
         elif nv == 1 and vdims is not None and r < 0.6:
             vmap = {vdims[0]: rng.choice(dims)}
     return dict(mesh=mesh_i, nvdim=nv, dtype=dtype, vals=vals, valid=valid, vdims=vdims, vmap=vmap,
@@ -828,9 +950,81 @@ def generate(rng, tier):
 
 # ------------------------------------------------------------------ running a case
 def snapshot(f):
-    return (f.array.tobytes(), str(f.array.dtype), f.array.shape, f.valid.tobytes(), f.valid.shape,
-            None if f.vdims is None else tuple(f.vdims), tuple(sorted(f.vdim_mapping.items())),
-            int(f.nvdim), f.unit, repr(f.mesh), id(f.mesh), id(f.array), id(f.valid))
+    reg = f.mesh.region
+    vm = f.vdim_mapping
+    return (f.array.tobytes(), str(f.array.dtype), f.array.shape, f.valid.tobytes(), f.valid.shape, str(f.valid.dtype),
+            None if f.vdims is None else tuple(f.vdims), tuple(sorted(vm.items())), tuple(vm.keys()),
+            int(f.nvdim), f.unit, repr(f.mesh),
+            np.asarray(reg.pmin).tobytes(), np.asarray(reg.pmax).tobytes(), np.asarray(f.mesh.n).tobytes(),
+            tuple(reg.dims), tuple(reg.units), f.mesh.bc, repr(sorted(f.mesh.subregions.items(), key=str)),
+            id(f.mesh), id(reg), id(f.array), id(f.valid), id(vm))
+
+
+def touch(f):
+    """use the operand before it is changed in place (anything cached would be cached now)"""
+    nd = f.mesh.region.ndim
+    for fn in (lambda: f.norm.array.sum(), lambda: f.mesh.cell, lambda: f.mesh.dV,
+               lambda: f.mesh.index2point((0,) * nd), lambda: f.mesh.point2index(f.mesh.region.center),
+               lambda: next(iter(f.mesh)), lambda: f.mesh.region.edges, lambda: f.mean(),
+               lambda: f._valid_as_field.array.sum()):
+        attempt(fn)
+
+
+def apply_steps(c, leaves):
+    """public in-place changes between two uses of the same operands"""
+    failed = []
+    for k, s_ in enumerate(c.get("steps", [])):
+        op = s_["op"]
+        which = s_.get("which", "all")
+        targets = leaves if which == "all" else [leaves[which % len(leaves)]]
+        for f in targets:
+            nd = f.mesh.region.ndim
+            v = [float(F(x)) for x in s_.get("v", [])][:nd]
+            v += [v[-1]] * (nd - len(v)) if v else []
+
+            def go():
+                if op == "translate":
+                    f.mesh.translate(v, inplace=True)
+                elif op == "scale":
+                    f.mesh.scale(v if s_.get("peraxis") else v[0], inplace=True)
+                elif op == "region_translate":
+                    f.mesh.region.translate(v, inplace=True)
+                elif op == "region_scale":
+                    f.mesh.region.scale(v if s_.get("peraxis") else v[0], inplace=True)
+                elif op == "rot":
+                    d = f.mesh.region.dims
+                    a, b = s_["ax"][0] % nd, s_["ax"][1] % nd
+                    f.rotate90(d[a], d[b], k=s_["k"], inplace=True)
+                elif op == "write":
+                    flat = f.array.reshape(-1)
+                    vals = [num_py(x) for x in s_["vals"]]
+                    for j in range(0, flat.size, s_.get("stride", 1)):
+                        x = vals[j % len(vals)]
+                        flat[j] = int(np.real(x)) if f.array.dtype.kind in "iu" else (
+                            np.real(x) if f.array.dtype.kind == "f" else x)
+                elif op == "imul":
+                    f.array *= int(s_["c"])
+                elif op == "setvalid":
+                    m_ = np.array([(j * 7 + s_["salt"]) % 3 != 0 for j in range(f.valid.size)]).reshape(f.valid.shape)
+                    f.valid = m_
+                elif op == "validitem":
+                    f.valid.reshape(-1)[s_["salt"] % f.valid.size] = False
+                else:
+                    raise ValueError(op)
+            st, r = attempt(go)
+            if st != "ok":
+                failed.append((k, r))
+    return failed
+
+
+def same_result(r1, r2):
+    if isinstance(r1, df.Field) != isinstance(r2, df.Field):
+        return False
+    if not isinstance(r1, df.Field):
+        return True
+    return (r1.nvdim == r2.nvdim and r1.mesh == r2.mesh and np.array_equal(r1.valid, r2.valid)
+            and r1.array.shape == r2.array.shape and str(r1.array.dtype) == str(r2.array.dtype)
+            and np.array_equal(r1.array, r2.array, equal_nan=True) and vec_labels(r1) == vec_labels(r2))
 
 
 def root_alg(e):
@@ -864,19 +1058,54 @@ def vec_labels(f):
 def run_case(c):
     rec = dict(kind=c["kind"], case=c, oracle=[], tags=[])
     meshes = [build_mesh(m) for m in c["meshes"]]
-    leaves = [build_field(fd, meshes) for fd in c["fields"]]
-    n = [int(k) for k in meshes[0].n]
+    if c.get("own_mesh"):
+        # every field on its own (equal) Mesh object, so that in-place mesh changes can be applied per field
+        leaves = [build_field(fd, meshes, own_mesh=build_mesh(c["meshes"][fd["mesh"]])) for fd in c["fields"]]
+    else:
+        leaves = [build_field(fd, meshes) for fd in c["fields"]]
     e = c["expr"]
     size = sum(len(fd["vals"]) for fd in c["fields"]) + 5 * len(repr(e).split("["))
-    before = [snapshot(f) for f in leaves]
-    st, r = attempt(lambda: ev_impl(e, leaves, n))
-    after = [snapshot(f) for f in leaves]
-    if before != after:
+    obs_extra = {}
+    if c.get("steps") is not None:
+        # first use: derived quantities and the operation under test itself, checked against numpy
+        n1 = [int(k) for k in leaves[0].mesh.n]
+        for f in leaves:
+            touch(f)
+        consts1 = make_consts(e, n1)
+        st1, r1 = attempt(lambda: ev_impl(e, leaves, n1, consts1))
+        ctx1 = Ctx(c, leaves)
+        try:
+            with np.errstate(all="ignore"):
+                ref1 = ev_ref(e, ctx1)
+            if st1 == "ok" and isinstance(r1, df.Field) and np.all(np.isfinite(ref1.fl)) and \
+                    np.all(np.isfinite(r1.array)):
+                if r1.array.shape != ref1.fl.shape or np.any(
+                        np.abs(r1.array.astype(complex) - ref1.fl.astype(complex)) > 10 * ctx1.rel * ctx1.scale):
+                    rec["oracle"].append("array-not-cellwise")
+        except Exception:  # noqa: BLE001
+            pass
+        obs_extra["steps_failed"] = js(apply_steps(c, leaves))
+        meshes = meshes + [f.mesh for f in leaves]
+    n = [int(k) for k in (leaves[0].mesh.n if leaves else meshes[0].n)]
+    consts = make_consts(e, n)
+    before = ([snapshot(f) for f in leaves], const_snapshot(consts))
+    st, r = attempt(lambda: ev_impl(e, leaves, n, consts))
+    after = ([snapshot(f) for f in leaves], const_snapshot(consts))
+    if before[0] != after[0]:
         rec["oracle"].append("operand-modified")
+    if before[1] != after[1]:
+        rec["oracle"].append("constant-argument-modified")
+    # the same call again, with the same argument objects: same result, operands still untouched
+    st_r, r_r = attempt(lambda: ev_impl(e, leaves, n, consts))
+    again = ([snapshot(f) for f in leaves], const_snapshot(consts))
+    if again != before:
+        rec["oracle"].append("operand-modified")
+    if (st_r == "ok") != (st == "ok") or (st == "ok" and not same_result(r, r_r)):
+        rec["oracle"].append("repeat-differs")
     if st == "ok" and not isinstance(r, df.Field):
         st, r = "err", "NotAField"
-    # reference evaluation
-    ctx = Ctx(c)
+    # reference evaluation on the state the operands report now
+    ctx = Ctx(c, leaves)
     ref, ref_err = None, None
     try:
         with np.errstate(all="ignore"):
@@ -889,7 +1118,7 @@ def run_case(c):
         ref_err = type(ex).__name__
     expect = c.get("expect", "free")
     leaf_obs = [field_obs(f, meshes) for f in leaves]
-    obs = dict(status=st, err=None if st == "ok" else r)
+    obs = dict(status=st, err=None if st == "ok" else r, **obs_extra)
     key = f'{c["kind"]}/{st}/{shape_key(e, c)}'
     if st == "ok" and not np.all(np.isfinite(np.asarray(r.array))):
         ref_err = "nonfinite"
@@ -911,7 +1140,7 @@ def run_case(c):
                 rec["oracle"].append("incompatible-nvdim-accepted")
         if ref is not None:
             exact = ctx.all_exact and ctx.keys_exact
-            tol = 0.0 if exact else 1e-9 * ctx.scale
+            tol = 0.0 if exact else ctx.rel * ctx.scale
             arr = np.asarray(r.array)
             if arr.shape != ref.fl.shape:
                 rec["oracle"].append("array-not-cellwise")
@@ -937,8 +1166,8 @@ def run_case(c):
         # "the result is labelled like the operand that has the result's component count"
         root = root_alg(e)
         if root is not None and c["kind"] in ("commute", "expr"):
-            st_a, fa = attempt(lambda: ev_impl(e[3], leaves, n))
-            st_b, fb = attempt(lambda: ev_impl(e[4], leaves, n))
+            st_a, fa = attempt(lambda: ev_impl(e[3], leaves, n, consts))
+            st_b, fb = attempt(lambda: ev_impl(e[4], leaves, n, consts))
             both_fields = isinstance(fa, df.Field) and isinstance(fb, df.Field)
             cands = [x for x in (fa, fb) if isinstance(x, df.Field) and x.nvdim == r.nvdim]
             if cands and vec_labels(r) not in [vec_labels(x) for x in cands]:
@@ -956,13 +1185,13 @@ def run_case(c):
                 for name, e2, is_swap in forms:
                     if e2 == e:
                         continue
-                    st2, r2 = attempt(lambda: ev_impl(e2, leaves, n))
+                    st2, r2 = attempt(lambda: ev_impl(e2, leaves, n, consts))
                     if st2 != "ok" or not isinstance(r2, df.Field):
                         rec["oracle"].append("commutative-rejected" if is_swap else "spelling-rejected")
                         continue
                     # complex products may be fused differently in the two orders: values up to rounding
                     same_vals = r.array.shape == r2.array.shape and bool(np.all(
-                        np.abs(r.array.astype(complex) - r2.array.astype(complex)) <= 1e-9 * ctx.scale))
+                        np.abs(r.array.astype(complex) - r2.array.astype(complex)) <= ctx.rel * ctx.scale))
                     if not (same_vals and np.array_equal(r.valid, r2.valid)
                             and r.mesh == r2.mesh and r.nvdim == r2.nvdim):
                         rec["oracle"].append("commutative-values" if is_swap else "spelling-values")
@@ -981,7 +1210,7 @@ def run_case(c):
                             rec["oracle"].append("spelling-labels")
                 obs["swapped_labels"] = swapped_labels
         elif e[0] == "un" and e[1] in ("neg", "abs", "real", "imag", "conj", "cabs", "phase", "uf1"):
-            st_a, fa = attempt(lambda: ev_impl(e[3], leaves, n))
+            st_a, fa = attempt(lambda: ev_impl(e[3], leaves, n, consts))
             if isinstance(fa, df.Field) and fa.nvdim == r.nvdim and vec_labels(r) != vec_labels(fa):
                 rec["oracle"].append("result-labels-not-operands")
         if c["kind"] == "stackcomp":
@@ -998,7 +1227,7 @@ def run_case(c):
     if ref is not None or st != "ok":
         if ref is not None:
             exact = ctx.all_exact and ctx.keys_exact
-            tol = F(0) if exact else F(1, 10 ** 9) * F(ctx.scale)
+            tol = F(0) if exact else F(ctx.rel) * F(ctx.scale)
         else:
             exact, tol = True, F(0)
         t1 = g.lst([f"({g.nat(k[0])}, {cqs(k[1])}, {cqs(v)})" for k, v in ctx.t1.items()])
